@@ -17,7 +17,9 @@ Open Scope Z_scope.
 (* nb_of_processes = 1, every configuration, schedule and history, every ambient state:
    (1) no position is used twice (by two samples or twice by one), (2) no pre-drawn row is popped
    twice, (3) the generators are seeded exactly once, with the configured seed (or the clock value),
-   as the very first event, (4) no seed event follows a draw from the same seed id. *)
+   as the very first event, (4) no seed event follows a draw from the same seed id, (5) the variates
+   compared by the coupling decisions (EUse events: one per variate of a draw made inside
+   coupling_state) are pairwise different positions over the whole run -- all levels and passes. *)
 Theorem C08_single_process_disjoint : forall seed t m g,
   (forall ss, disciplined (std_ops seed t m ss) (init g) (seed_choice seed false t))
   /\ (forall n0 levels, disciplined (mlc_ops seed t m n0 levels) (init g) (seed_choice seed false t))
@@ -91,11 +93,14 @@ Proof. exact seed_zero_refuted. Qed.
 (* non-vacuity: a concrete adaptive run (two passes, a level added) with its positions; the adaptive
    price() also pre-draws rows it never pops (created 1,2 by initialisation(), 9,10 by next_level()) *)
 Example C08_nonvacuous :
-  let r := run (mlp_ops (Some 7) 0 fixed1 2 [mkPass [[[(false, 1)]; []]; [[(false, 2)]]] (Some 3); mkPass [[]; []; [[]]] None])
+  let r := run (mlp_ops (Some 7) 0 fixed1 2 [mkPass [[[(false, 1, false)]; []]; [[(false, 2, false); (false, 1, true)]]] (Some 3);
+                                             mkPass [[]; []; [[(false, 1, true)]]] None])
                (init (mkGen (-1) 0 0)) in
   snd (fst r) = [(0, [(false, 7, 4); (false, 7, 8); (false, 7, 6)]); (0, [(false, 7, 5); (false, 7, 7)]);
-                 (1, [(false, 7, 9); (false, 7, 11); (false, 7, 12); (false, 7, 10)]); (2, [(false, 7, 19); (false, 7, 20)])]
+                 (1, [(false, 7, 9); (false, 7, 11); (false, 7, 12); (false, 7, 13); (false, 7, 10)]);
+                 (2, [(false, 7, 20); (false, 7, 22); (false, 7, 21)])]
   /\ popped (fst (fst r)) = [(4, 0); (3, 0); (4, 1); (3, 1); (8, 0); (7, 0); (16, 0); (15, 0)]
+  /\ uses (fst (fst r)) = [(false, 7, 13); (false, 7, 22)]
   /\ seeds (fst (fst r)) = [7]
   /\ seed_choice (Some 0) false 5 = 0 /\ seed_choice None false 5 = 5 /\ seed_choice (Some 3) true 5 = 5.
 Proof. vm_compute. repeat split. Qed.
